@@ -258,7 +258,7 @@ def large_plan(tier):
     cases.append({"type": "C*8", "L": 40, "P": 40000, "rpc": None, "fs": "mcfs"})
     # many lines: several line groups at the default rpc, hundreds of small groups
     for tc, L, P in (("IU2", 2500, 8), ("C*8", 2100, 3)):
-        for rpc in (None, 1, 100, 256, 1000, 1024, 2048):
+        for rpc in (None, 1, 2, 3, 7, 100, 256, 1000, 1024, 2048):  # small rpc: line-group numbers beyond 256 and 1024
             cases.append({"type": tc, "L": L, "P": P, "rpc": rpc, "fs": "mcfs"})
     # >= 4096 lines, line counts that are / are not multiples of the request size, requests larger than the image
     for tc, L, P, rpcs in (("IU2", 5120, 4, (None, 8192, 1000, 512)), ("C*8", 4096, 2, (None, 4096, 100)), ("IU2", 4097, 1, (None, 4097))):
